@@ -217,6 +217,18 @@ fn probe(args: &Args) {
             println!("LGWIN lgwin={} large={} n={} t={} -> class={} {} len={} decode={}", lgwin, large, n, t, o.class, o.msg, o.bytes.len(), d);
         }
     }
+    if which == "shortranges" {
+        // favor: ranges shorter than the hasher's look-ahead while the prefix is longer
+        for (q, lgwin, t, n, kind) in [(10, 18, 5usize, 387usize, 1u64), (11, 18, 5, 387, 1), (10, 18, 3, 300, 1), (5, 18, 5, 14, 4), (5, 18, 8, 20, 4), (9, 18, 6, 17, 4), (2, 18, 6, 17, 4), (4, 18, 6, 23, 4), (7, 22, 16, 40, 4), (5, 18, 4, 4000, 1)] {
+            let mut rng = Rng::new(4242);
+            let input = gen_input(&mut rng, n, kind);
+            let cap = BrotliEncoderMaxCompressedSizeMulti(n, t) + 1000;
+            let off = run_multi(Spawner::Inline, &mk_params(q, lgwin, false, false, false, false, false), &input, t, cap, None);
+            let on = run_multi(Spawner::Inline, &mk_params(q, lgwin, true, false, false, false, false), &input, t, cap, None);
+            let d_on = if on.class == "ok" { format!("{:?}", decode_ok(&on.bytes, false, &input)) } else { "-".into() };
+            println!("SHORT q={} lgwin={} t={} n={} kind={}: favor-off class={} len={} | favor-on class={} len={} same-bytes={} decode={} {}", q, lgwin, t, n, kind, off.class, off.bytes.len(), on.class, on.bytes.len(), on.bytes == off.bytes, d_on, on.msg);
+        }
+    }
     if which == "d16grid" {
         // favor on/off over quality x {no truncation, truncation}; counts of differing / wrong outputs
         for q in 0..=11 {
